@@ -612,7 +612,9 @@ def build_data(spec):
 # ---------------------------------------------------------------------------------------------
 # AST -> pyiga VForm
 
-def build_vform(spec):
+def build_vform(spec, return_builder=False):
+    """return_builder=True: also return the function that turns an AST node into an expression bound to the returned
+    VForm object (for adding further terms to the same object later)."""
     from pyiga import vform as V
     dim = spec["dim"]
     kind = spec["kind"]
@@ -724,6 +726,8 @@ def build_vform(spec):
         sym["var:" + v["name"]] = vf.let(v["name"], b(v["expr"]), symmetric=bool(v.get("symmetric")))
     for t in spec["terms"]:
         vf.add(b(t))
+    if return_builder:
+        return vf, b
     return vf
 
 
